@@ -31,6 +31,22 @@ let int_of_n = function N0 -> 0 | Npos p -> int_of_pos p
 let z_of_int n = if n = 0 then Z0 else if n > 0 then Zpos (pos_of_int n) else Zneg (pos_of_int (-n))
 let int_of_z = function Z0 -> 0 | Zpos p -> int_of_pos p | Zneg p -> - (int_of_pos p)
 
+(* The frequency rendering count as f32 / total as f32 is the extracted freq_f32 (Flocq binary32
+   division, ~16 us per call); it is a pure function of two small integers, so the checkers —
+   which are parametric in it (C16.v quantifies over every rendering function) — are given a
+   memoised copy. *)
+let freq_tbl : (int * int, z) Hashtbl.t = Hashtbl.create 4096
+let freq_memo (c : n) (t : n) : z =
+  let key = (int_of_n c, int_of_n t) in
+  match Hashtbl.find_opt freq_tbl key with
+  | Some v -> v
+  | None -> let v = freq_f32 c t in Hashtbl.replace freq_tbl key v; v
+let check_state_f32 = check_state freq_memo
+let check_bg_f32 = check_bg freq_memo
+let expected_bg_bits_f32 = expected_bg_bits freq_memo
+let report_of_f32 = report_of freq_memo
+let check_C16_f32 = check_C16 freq_memo
+
 let split c s = if s = "" || s = "-" then [] else String.split_on_char c s
 let ints s = List.map int_of_string (split ',' s)
 
@@ -136,9 +152,9 @@ let () =
           (* observation *)
           let parts = String.split_on_char '|' obs in
           let (hdr, recs) = match parts with
-            | kf :: cnt :: sym :: rr :: wts :: recs -> ((kf, cnt, sym, rr, wts), recs)
+            | kf :: cnt :: sym :: rr :: wts :: pssm :: recs -> ((kf, cnt, sym, rr, wts, pssm), recs)
             | _ -> raise (Bad "bad observation") in
-          let (kf, cnt, sym, rr, wts) = hdr in
+          let (kf, cnt, sym, rr, wts, pssm) = hdr in
           if kf <> "K=" ^ string_of_int k then diff ("alphabet-size " ^ kf);
           (* model assumptions about the data set: cached counts and indexing *)
           let exp_cnt = String.concat "/" (List.map (fun c -> show_ints (List.map int_of_n c)) (sampler_data_counts kn data)) in
@@ -150,6 +166,8 @@ let () =
           if rr <> "rerun=same" then propfail ("nondeterministic-trace " ^ rr);
           (* model assumption about the choices: the new start is drawn among len - width + 1 weights *)
           if wts <> "wts=ok" then diff ("weights-not-over-exactly-the-valid-start-positions " ^ wts);
+          (* model assumption about prepare_pssm: called between exclude_sequence and update_holdout *)
+          if pssm <> "pssm=ok" then diff ("iteration-pssm-is-not-the-scoring-matrix-of-the-alignment-without-z " ^ pssm);
           (* model construction *)
           let construct starts0 seeds0 =
             if get "api" = "new" then sampler_new kn wn data wraps starts0
